@@ -356,7 +356,12 @@ def dpss(N, NW=None, k=None):
                 tapsum[i] *= -1
                 tapers[:, i] *= -1
         else:
-            if tapers[0, i] < 0:
+            # sign of the first lobe: the very first sample can be below the
+            # accuracy of the tapers (~1e-10 for large NW), so look at the
+            # first sample that is significant
+            col = tapers[:, i]
+            first = col[np.argmax(np.abs(col) > 1e-6 * np.abs(col).max())]
+            if first < 0:
                 tapsum[i] *= -1
                 tapers[:, i] *= -1
 
